@@ -268,9 +268,6 @@ func (e *Exec) run(ct *Contract, fi *FuncInfo, lit *ast.FuncLit) {
 			if en.Mode == "seq" && e.mode == "conc" {
 				continue
 			}
-			if en.Mode == "" && e.mode == "conc" {
-				continue
-			}
 			if en.Mode == "conc" && e.mode == "seq" {
 				continue
 			}
@@ -280,6 +277,10 @@ func (e *Exec) run(ct *Contract, fi *FuncInfo, lit *ast.FuncLit) {
 			mv := e.modelVars(r.st, fr)
 			e.assert(r.st, name, "postcondition", phi, en.Text, fmt.Sprintf("%s:%d", shortFile(en.File), en.Line), mv)
 		}
+	}
+	if ct.HasMod && e.mode == "seq" {
+		// (in concurrent mode protected state changes by interference at every acquire; the frame is a sequential notion)
+		e.checkFrame(ct, fi, fr, rets)
 	}
 	if len(rets) > 0 || len(ct.Ensures) > 0 {
 		// canary: some return must be reachable, otherwise the assumptions exclude everything
@@ -418,4 +419,137 @@ func (p *Program) VerifyLemma(l *Lemma) *FuncReport {
 		rep.ToolError = true
 	}
 	return rep
+}
+
+// checkFrame: every heap location that differs between entry and a return state must be covered by the
+// contract's modifies clause (object granularity for x.f, row granularity for mapof(x.f)).
+func (e *Exec) checkFrame(ct *Contract, fi *FuncInfo, fr *Frame, rets []*Ret) {
+	sig := fi.Obj.Type().(*types.Signature)
+	type allow struct {
+		whole bool
+		objs  []string
+	}
+	allowed := map[string]*allow{}
+	get := func(k string) *allow {
+		if allowed[k] == nil {
+			allowed[k] = &allow{}
+		}
+		return allowed[k]
+	}
+	timeOK, allOK := false, false
+	entry := fr.entry
+	sc := &Ctx{st: entry, fr: fr, spec: true, old: entry}
+	_ = sig
+	for _, m := range ct.Modifies {
+		switch x := m.(type) {
+		case *ast.Ident:
+			switch {
+			case x.Name == "heap":
+				allOK = true
+			case x.Name == "now":
+				timeOK = true
+			default:
+				if g, ok := e.prog.ghostVars[x.Name]; ok {
+					get("GV!" + g.Name).whole = true
+				}
+			}
+		case *ast.SelectorExpr:
+			base := e.eval(x.X, sc)
+			if path := e.findField(base.T, x.Sel.Name, 0); path != nil && base.T.K == KRef {
+				a := get(heapKey(base.T.Name, path[0].Name))
+				a.objs = append(a.objs, base.S)
+			}
+		case *ast.CallExpr:
+			id, _ := x.Fun.(*ast.Ident)
+			switch {
+			case id != nil && id.Name == "now":
+				timeOK = true
+			case id != nil && id.Name == "heap":
+				allOK = true
+			case id != nil && id.Name == "mapof":
+				mv := e.eval(x.Args[0], sc)
+				if mv.T.K == KMap {
+					for _, k := range []string{"MD!" + mapKeyName(e, mv.T), "MV!" + mapKeyName(e, mv.T)} {
+						a := get(k)
+						a.objs = append(a.objs, mv.S)
+					}
+				}
+			case id != nil && id.Name == "allof":
+				if se, ok := x.Args[0].(*ast.SelectorExpr); ok {
+					t := e.specType(se.X, sc)
+					if path := e.findField(t, se.Sel.Name, 0); path != nil {
+						get(heapKey(t.Name, path[0].Name)).whole = true
+					}
+				}
+			}
+		}
+	}
+	if allOK {
+		return
+	}
+	al := e.get(entry, "$alloc", &Type{K: KGMap, Key: tInt, Elem: tBool})
+	for _, r := range rets {
+		if r.st.dead() {
+			continue
+		}
+		if _, changedEpoch := r.st.vars["$epoch"]; changedEpoch {
+			e.assert(r.st, e.fnName+"#frame[heap]", "frame", "false", "a call without a frame havocked the heap but the contract does not say `modifies heap`", shortFile(ct.File), nil)
+			continue
+		}
+		var keys []string
+		for k := range r.st.vars {
+			keys = append(keys, k)
+		}
+		sort.Strings(keys)
+		for _, k := range keys {
+			v := r.st.vars[k]
+			if k == "$now" {
+				if !timeOK {
+					ev := e.get(entry, k, v.T)
+					if ev.S != v.S {
+						e.assert(r.st, e.fnName+"#frame[now]", "frame", fmt.Sprintf("(= %s %s)", v.S, ev.S), "time advances but the contract does not say `modifies now`", shortFile(ct.File), nil)
+					}
+				}
+				continue
+			}
+			if !isHeapKey(k) && !strings.HasPrefix(k, "GV!") {
+				continue
+			}
+			ev := e.get(entry, k, v.T)
+			if ev.S == v.S {
+				continue
+			}
+			a := allowed[k]
+			if a != nil && a.whole {
+				continue
+			}
+			name := fmt.Sprintf("%s#frame[%s]", e.fnName, strings.TrimPrefix(shortKey(k), "!"))
+			if strings.HasPrefix(k, "GV!") || strings.HasPrefix(k, "G!") {
+				e.assert(r.st, name, "frame", fmt.Sprintf("(= %s %s)", v.S, ev.S), "modified but not in the modifies clause", shortFile(ct.File), nil)
+				continue
+			}
+			// arrays indexed by object: all objects that were allocated at entry and are not listed keep their value
+			o := e.vc.FreshConst("frame_o", "Int")
+			var excl []string
+			if a != nil {
+				for _, x := range a.objs {
+					excl = append(excl, fmt.Sprintf("(not (= %s %s))", o, x))
+				}
+			}
+			guard := fmt.Sprintf("(and (select %s %s) %s)", al.S, o, strings.Join(append(excl, "true"), " "))
+			phi := fmt.Sprintf("(=> %s (= (select %s %s) (select %s %s)))", guard, v.S, o, ev.S, o)
+			e.assert(r.st, name, "frame", phi, "objects other than those in the modifies clause keep their "+shortKey(k), shortFile(ct.File), nil)
+		}
+	}
+}
+
+func shortKey(k string) string {
+	if i := strings.Index(k, "!"); i >= 0 {
+		rest := k[i+1:]
+		if j := strings.LastIndex(rest, "."); j >= 0 && strings.HasPrefix(k, "H!") {
+			return rest[j+1:]
+		}
+		return rest
+	}
+	return k
 }
